@@ -227,6 +227,8 @@ public:
   inline app_pointer& operator=(app_pointer&& other)
   {
     if (this != &other) {
+      // Release the token currently owned by this object before overwriting it
+      unregister();
       move_obj(std::forward<app_pointer>(other));
     }
     return *this;
